@@ -59,6 +59,13 @@ class _:
         "no-new-request-while-stopping": "implies(old(self._stopping) and old(self._request_d is None), self._request_d is None)",
         "commit-timer-stays-pending": "implies(old(self._stopping) and old(self._commit_call is None or active(self._commit_call)), "
                                       "self._commit_call is None or active(self._commit_call))",
+        # once stop() has cancelled the processor's Deferred / the retry timer, nothing running during a later cancellation
+        # starts the processor again or schedules a new retry
+        "processor-not-replaced-while-stopping": "implies(old(self._stopping), self._processor_d is None or self._processor_d == old(self._processor_d))",
+        # nothing running during one of stop()'s cancellations starts an auto-commit looper
+        "looper-not-restarted-while-stopping": "implies(old(self._stopping) and old(self._commit_looper is None or not running(self._commit_looper)), "
+                                               "self._commit_looper is None or not running(self._commit_looper))",
+        "retry-not-replaced-while-stopping": "implies(old(self._stopping), self._retry_call is None or self._retry_call == old(self._retry_call))",
     }
     invariant = {
         # C13: timers referenced by the consumer are pending ones (a fired / cancelled timer is not kept)
@@ -312,6 +319,17 @@ method("_handle_fetch_response", "(%s, responses: List[FetchResponse]) -> None" 
 # matching guarantee.
 # (no precondition and no exemption from the guarantees: a stop() re-entered while stopping returns at once, and every rely
 # clause is conditional on "was already stopping", so the outermost call satisfies them too)
+# "leave nothing running": when the outermost stop() notifies the start Deferred (arbitrary user code runs from there on,
+# possibly start() again, so that is the last point where it can be said) nothing the consumer refers to is still pending:
+# no fetch / offset request, no commit request, the processor's Deferred fired, the retry timer not pending.  One clause per
+# cancellation: deleting or misplacing `self._processor_d.cancel()` / `self._retry_call.cancel()` / ... fails its own clause
+# (each is carried from its own cut to the notification by a rely clause that every other method has to guarantee).
+_STOP_QUIET = {
+    "request-cancelled[C13]": "old(self._request_d) is None or called(old(self._request_d))",
+    "processor-cancelled[C13]": "self._processor_d is None or called(self._processor_d)",
+    "retry-timer-cancelled[C13]": "self._retry_call is None or not active(self._retry_call)",
+    "commit-request-cancelled[C13]": "self._commit_req is None",
+    "looper-stopped[C13]": "self._commit_looper is None"}
 method("stop", "(%s) -> Optional[int]" % SELF, props=["C13"],
        # cut after every guarded cancellation (see pyvc/units.cut_segment): what survives an excursion while stopping
        cut_points=dict(inv=["self._stopping", "self._start_d is not None", "self._start_d == old(self._start_d)", "not old(self._stopping)"],
@@ -321,12 +339,23 @@ method("stop", "(%s) -> Optional[int]" % SELF, props=["C13"],
                        inv_from={"no-request": ("self._request_d is None", "self._request_d"),
                                  "no-commit-request": ("self._commit_req is None", "self._commit_req"),
                                  # once stop() has cancelled AND dropped the commit retry timer, whatever is there is pending
-                                 "commit-timer-dropped": ("self._commit_call is None or active(self._commit_call)", "self._commit_call")}),
+                                 "commit-timer-dropped": ("self._commit_call is None or active(self._commit_call)", "self._commit_call"),
+                                 # what each cancellation achieved stays achieved through the excursions of the later ones
+                                 "request-cancelled": (_STOP_QUIET["request-cancelled[C13]"], "self._request_d"),
+                                 "processor-cancelled": (_STOP_QUIET["processor-cancelled[C13]"], "self._processor_d"),
+                                 "retry-timer-cancelled": (_STOP_QUIET["retry-timer-cancelled[C13]"], "self._retry_call"),
+                                 "looper-stopped": (_STOP_QUIET["looper-stopped[C13]"], "self._commit_looper is not None")}),
        loops={"while#1": dict(index="n", inv=["self._stopping", "self._start_d is not None", "self._start_d == old(self._start_d)",
-                                               "self._commit_call is None or active(self._commit_call)", "self._request_d is None"])},
-       checkpoints={"fire:callback#1": {"stopped-before-notifying[C13]": "self._start_d is None and not self._stopping and self._request_d is None"}},
+                                               "self._commit_call is None or active(self._commit_call)", "self._request_d is None",
+                                               _STOP_QUIET["request-cancelled[C13]"], _STOP_QUIET["processor-cancelled[C13]"],
+                                               _STOP_QUIET["retry-timer-cancelled[C13]"]])},
+       checkpoints={"fire:callback#1": dict({"stopped-before-notifying[C13]": "self._start_d is None and not self._stopping and self._request_d is None"},
+                                            **_STOP_QUIET)},
        ensures={"start-deferred-fired-once[C13]": "implies(not old(self._stopping), called(old(self._start_d)))",
-                "returns-last-processed[C13]": "result == self._last_processed_offset"},
+                "returns-last-processed[C13]": "result == self._last_processed_offset",
+                # the same six clauses when the start Deferred had fired before stop() was called (nobody is notified, so
+                # nothing runs after the last cancellation)
+                **{k: "implies(not old(self._stopping) and old(called(self._start_d)), %s)" % v for k, v in _STOP_QUIET.items()}},
        raises={"RestopError[C13]": "iff:self._start_d is None"})
 
 method("start", "(%s, start_offset: int) -> Ref_Deferred" % SELF, props=["C13"],
@@ -480,7 +509,9 @@ method("_handle_auto_commit_error", "(%s, failure: Ref_Failure) -> None" % SELF,
 method("_commit_timer_failed", "(%s, fail: Ref_Failure) -> None" % SELF, props=["C13"],
        inv_exempt_at_entry=["looper-running"],
        # runs when the LoopingCall's function raised: the looper has stopped itself and is still the consumer's looper
-       requires=["self._commit_looper is not None", "not running(self._commit_looper)", "self.auto_commit_every_s is not None"])
+       # (and not in the middle of stop(): the errback fires from the LoopingCall's own reactor tick, stop() is synchronous)
+       requires=["self._commit_looper is not None", "not running(self._commit_looper)", "self.auto_commit_every_s is not None",
+                 "not self._stopping"])
 
 method("_commit_timer_stopped", "(%s, lCall: Ref_LoopingCall) -> None" % SELF, props=["C13"],
        inv_exempt_at_entry=["looper-running"],
